@@ -333,6 +333,8 @@ def run(ctx):
         for p, b in cr.hir.items():
             if b.get("mac"):
                 continue            # derive-generated
+            if b.get("inlined_everywhere"):
+                continue            # a helper added since the review: compared as part of each caller (zsa/inline.py)
             bodies.setdefault(npath(p), {})[c] = b
     n_same = n_rev = 0
     for p in sorted(bodies):
@@ -377,6 +379,8 @@ def run(ctx):
                       "%s may differ between hash and no-hash builds only by the statements that touch the hasher (and the checksum flag literal)" % H.short(p),
                       observed={"equal_within_hash_class": ok1, "equal_after_removing_hash_statements": ok2})
         elif p in REVIEWED_STD:
+            for b in per.values():
+                _mark_err_arm(b["body"])
             m = {c: digest(sig(b["body"], mask=_mask_err_arm)) for c, b in per.items()}
             ctx.check(len(set(m.values())) == 1, R, key, per[sorted(per)[0]]["file"],
                       "StreamingDecoder::read may differ between std and no_std only in how the decode error is wrapped", observed=m)
@@ -424,9 +428,20 @@ def _mask_checksum_flag(n):
     return False
 
 
+def _mark_err_arm(body):
+    """mark the handler of a failed decode_blocks call in StreamingDecoder::read — the `Err(e)` arm of a match / the
+    then-branch of `if let Err(e) = ..` — provided it always leaves the function (it only builds the io error)"""
+    for x, _ in H.walk(body):
+        if x.get("k") == "Match" and "decode_blocks" in (H.callee(hq.peel(x["scrut"])) or ""):
+            for a in x["arms"]:
+                if hq.Index.pat_class(a["pat"]) == "err" and a["body"].get("ty") == "!":
+                    a["body"]["_mask"] = True
+        if x.get("k") == "If":
+            c = hq.peel(x["cond"])
+            if c.get("k") == "Let" and hq.Index.pat_class(c["pat"]) == "err" and "decode_blocks" in (H.callee(hq.peel(c["init"])) or "") \
+                    and x["then"].get("ty") == "!":
+                x["then"]["_mask"] = True
+
+
 def _mask_err_arm(n):
-    # the `Err(e) => { .. }` arm body in StreamingDecoder::read: a block that declares `err` and returns Err(err)
-    if n.get("k") == "Block":
-        s = H.show(n)
-        return s.startswith("{ let err") and "return Result::Err(err)" in s
-    return False
+    return bool(n.get("_mask"))
